@@ -15,6 +15,12 @@ pymin = sp.Function("pymin", positive=True)
 pymax = sp.Function("pymax", positive=True)
 
 
+class CmpKey:
+    """functools.cmp_to_key(f)"""
+    def __init__(self, cmp):
+        self.cmp = cmp
+
+
 class StrSym:
     """Opaque string built from symbolic parts (only used in messages)."""
     def __init__(self, text="<str>"):
@@ -637,6 +643,16 @@ def make_builtins(I):
 
     def b_sorted(it, key=None, reverse=False):
         items = iterate(I, it)
+        if isinstance(key, CmpKey):
+            import functools
+
+            def cmpf(x, y):
+                r = I.call(key.cmp, [x, y], {})
+                e = to_expr(r)
+                if not e.is_number:
+                    raise AnalysisError("comparison function gives a symbolic result")
+                return int(sp.sign(e))
+            return sorted(items, key=functools.cmp_to_key(cmpf), reverse=bool(reverse))
         if key is not None:
             ks = [I.call(key, [x], {}) for x in items]
         else:
@@ -741,6 +757,10 @@ def external(I, dotted):
         return ModuleVal(dotted, external=dotted)
     if dotted == "copy.copy":
         return I.builtins["copy.copy"]
+    if dotted == "functools.cmp_to_key":
+        return Builtin(dotted, lambda f: CmpKey(f))
+    if dotted == "functools":
+        return ModuleVal(dotted, external=dotted)
     if mod in ("math", "numpy"):
         f = _math(I, name)
         if f is not None:
